@@ -884,6 +884,19 @@ class Builder:
                 if isinstance(v, ir.Reg) and v.alias:
                     plain.add(v.alias)
             o += pess_size(it)
+        # the same for %position(L, literal) written directly as a 12-bit immediate: choose the literal so that the value is 0 / on an
+        # RVC range edge while L is still at its pessimistic place (the label moves down later, the value with it)
+        o, labpos = 0, {}
+        for it in self.items:
+            if it.kind == 'label':
+                labpos[it.name] = o
+            o += pess_size(it)
+        for it in self.items:
+            if it.kind == 'insn' and it.mn in ('addi', 'andi', 'lw', 'jalr', 'sw') and isinstance(it.ops.get('imm'), ir.Pos) \
+                    and isinstance(it.ops['imm'].base, ir.Lit) and it.ops['imm'].name in labpos and self.chance(0.6):
+                want = self.pick([0, 0, 0, 4, 8, 31, 32, -32, 124, 128, 16, 64])
+                it.ops['imm'] = ir.Pos(it.ops['imm'].name, ir.Lit(want - labpos[it.ops['imm'].name]))
+                self.tags.add('position_value_at_decision_edge')
         for c in self.consts:
             if c.name in first and c.name not in plain and c.name in self.addr_consts and self.chance(0.6):
                 newv = max(0, first[c.name] + self.pick([0, 0, 0, 2, 4, 30, 32, 62, 64, 124, 128, 252, 254, 256, 2044, 2046, 2048, -2, -32, -34, -256, -258, -2048, -2050]))
